@@ -221,11 +221,13 @@ extern "C" void* __wrap_malloc(size_t n)
     }
     return __real_malloc(n);
 }
+static volatile int g_fail_persist = 0; // operator new keeps failing until something disarms it (new-handler cases)
 void* operator new(std::size_t n, const std::nothrow_t&) noexcept
 {
     if (g_fail_armed)
     {
-        g_fail_armed = 0;
+        if (!g_fail_persist)
+            g_fail_armed = 0;
         ++g_fail_hits;
         return nullptr;
     }
@@ -260,6 +262,29 @@ static void h_oom(const fm::allocator_info&, std::size_t) noexcept
     ++g_oom_handler;
 }
 
+// new-handler behaviours for new_allocator (arm 3..5): the retry protocol must ask for the CURRENTLY installed handler each round
+static int  g_nh_calls = 0;
+static void nh_uninstall() // gives up by uninstalling itself: the request must then fail with out_of_memory
+{
+    ++g_nh_calls;
+    std::set_new_handler(nullptr);
+}
+static void nh_throwing()
+{
+    ++g_nh_calls;
+    throw std::bad_alloc();
+}
+static void nh_pass_on() // passes on to another handler, which gives up by throwing
+{
+    ++g_nh_calls;
+    std::set_new_handler(nh_throwing);
+}
+static void nh_frees() // "frees memory": the next attempt succeeds
+{
+    ++g_nh_calls;
+    g_fail_armed = 0;
+}
+
 // one case: arm a failure of the allocation primitive, request `shape`: must throw something derived from std::bad_alloc
 // of the out_of_memory family with the handler called first; never null; the allocator must be usable afterwards
 template <class A>
@@ -274,7 +299,14 @@ static std::string fail_case(const char* an, int sh, int arm, bool verbose)
     void* p       = nullptr;
     int   ex      = 0; // 1 out_of_memory, 2 other bad_alloc, 3 other
     int   oc;
-    g_fail_armed = arm;
+    int   nh = arm >= 3 ? arm - 2 : 0; // 1 uninstalls itself, 2 passes on to a throwing handler, 3 frees memory
+    if (nh && !std::is_same<A, fm::new_allocator>::value)
+        return "SKIP";
+    g_nh_calls     = 0;
+    g_fail_persist = nh != 0;
+    if (nh)
+        std::set_new_handler(nh == 1 ? nh_uninstall : nh == 2 ? nh_pass_on : nh_frees);
+    g_fail_armed = nh ? 1 : arm;
     VERIF_GUARDED(oc, {
         try
         {
@@ -293,12 +325,28 @@ static std::string fail_case(const char* an, int sh, int arm, bool verbose)
             ex = 3;
         }
     });
-    g_fail_armed = 0;
+    g_fail_armed   = 0;
+    g_fail_persist = 0;
+    std::set_new_handler(nullptr);
     if (verbose)
-        std::printf("  %s shape %d arm %d -> outcome %s, exception class %d, pointer %p, primitive failed %d time(s), handler %d\n", an, sh, arm,
-                    outcome_name(oc), ex, p, g_fail_hits, g_oom_handler);
+        std::printf("  %s shape %d arm %d -> outcome %s, exception class %d, pointer %p, primitive failed %d time(s), handler %d, new-handler calls %d\n", an, sh, arm,
+                    outcome_name(oc), ex, p, g_fail_hits, g_oom_handler, g_nh_calls);
     if (oc != OUT_OK)
-        return fmt("fail-%s|%s when the underlying allocation failed", outcome_name(oc), outcome_name(oc));
+        return fmt("fail-%s|%s when the underlying allocation failed%s", outcome_name(oc), outcome_name(oc),
+                   nh ? " persistently with a new-handler installed that gives up" : "");
+    if (nh == 3)
+    {
+        // the handler made memory available: the request must succeed after exactly one handler call
+        if (!p || ex || g_nh_calls != 1)
+            return fmt("fail-handler-retry|new-handler freed memory but the request did not succeed on the retry (pointer %p, exception class %d, %d handler calls)", p, ex, g_nh_calls);
+        if (s.kind)
+            traits::deallocate_array(alloc, p, s.count, s.size, s.align);
+        else
+            traits::deallocate_node(alloc, p, s.size, s.align);
+        return "";
+    }
+    if (nh && g_nh_calls != nh)
+        return fmt("fail-handler-protocol|%d new-handler calls, expected %d (each round must use the currently installed handler)", g_nh_calls, nh);
     if (g_fail_hits == 0)
     {
         // the primitive was not reached (e.g. arm 2 on a non virtual allocator): not a fault case
@@ -476,7 +524,7 @@ int main(int argc, char** argv)
     std::map<std::string, std::string> a;
     for (int i = 1; i + 1 < argc; i += 2)
         a[argv[i]] = argv[i + 1];
-    install_guards(5000);
+    install_guards(a.count("--mode") && a["--mode"] == "fail" ? 1500 : 5000);
     std::string mode = a.count("--mode") ? a["--mode"] : "dfs";
     bool        thor = a.count("--tier") && a["--tier"] == "thorough";
     double      t0   = now_s();
@@ -526,7 +574,7 @@ int main(int argc, char** argv)
     {
         for (int al = 0; al < 4; ++al)
             for (int sh = 0; sh < NSHAPES; ++sh)
-                for (int arm = 1; arm <= 2; ++arm)
+                for (int arm = 1; arm <= 5; ++arm)
                 {
                     auto run = [&](bool verbose) {
                         return al == 0 ? fail_case<fm::heap_allocator>(ANAME[0], sh, arm, verbose) : al == 1 ? fail_case<fm::malloc_allocator>(ANAME[1], sh, arm, verbose)
@@ -538,7 +586,7 @@ int main(int argc, char** argv)
                     ++r.sequences;
                     r.classes.insert(std::string(ANAME[al]) + ":" + std::to_string(sh) + ":" + std::to_string(arm));
                     if (r.samples.size() < 4 && sh == 1)
-                        r.samples.push_back(fmt("%s: %s fails during request shape %d", ANAME[al], arm == 1 ? "malloc/new/mmap" : "mprotect(commit)", sh));
+                        r.samples.push_back(fmt("%s: %s fails during request shape %d", ANAME[al], arm == 1 ? "malloc/new/mmap" : arm == 2 ? "mprotect(commit)" : "operator new persistently, new-handler installed", sh));
                     if (!v.empty())
                     {
                         std::string v2 = run(false);
